@@ -15,6 +15,8 @@
                 density     get_backend("cirq", n_shots=1, noise_model=nm).simulate(c, return_statevector=True):
                             final density matrix vs. the exact matrix of Density.v in Q(zeta_32) with rational rates
                 backend     get_backend(...) constructor accept/reject vs. the model of Backend.__init__
+                history     (implementation only) one mutable NoiseModel object created / handed to a backend / filled
+                            in every order, then simulate: rejection or the specified noisy result, never another one
   oracle      the property itself on the real code, with an independent numpy density-matrix reference
               (textbook Kraus forms; channels after every gate whose OWN name is noisy): final state, zero-noise
               limit vs. the noiseless statevector, tr(rho H) vs. expectation_value_from_prepared_state, the
@@ -51,6 +53,7 @@ Definition bi (noisy sv shots nm : bool) := show_backend (backend_init noisy sv 
 SIG_RENAME = "C19/translate_c_to_cirq/multi-controlled-CNOT-noise-lookup-after-rename"
 ZETA = cmath.exp(1j * math.pi / 16)
 TOL = 1e-9
+WITNESS = {"renamed": True}     # set by run(): does the real code show the pre-fix look-up behaviour on the witness?
 
 
 # last-known-good constants (what translator/noise_tables.py extracts from the tree the check was built against);
@@ -639,7 +642,7 @@ def density_oracle(ck, gs, errs, rho, r_spec, r_asis, replay):
     d_spec = float(np.max(np.abs(rho - r_spec)))
     d_asis = float(np.max(np.abs(rho - r_asis)))
     if d_spec > TOL:
-        if d_asis <= TOL and any(asis_key(s) != s["name"] for s in gs):
+        if WITNESS["renamed"] and d_asis <= TOL and any(asis_key(s) != s["name"] for s in gs):
             ck.violation(SIG_RENAME, RENAME_DESC, dict(replay, diff=d_spec), found_input=True)
         else:
             noisy = [s for s in gs if s["name"] in errs]
@@ -669,7 +672,7 @@ def placement_oracle(ck, gs, calls, toks, replay):
     want = expected(lambda s: s["name"])
     if projections(toks) != projections(want):
         mc = any(asis_key(s) != s["name"] for s in gs) and ("CNOT" in errs or "CX" in errs)
-        if mc and projections(toks) == projections(expected(asis_key)):
+        if WITNESS["renamed"] and mc and projections(toks) == projections(expected(asis_key)):
             ck.violation(SIG_RENAME, RENAME_DESC, dict(replay, kind="placement-oracle"), found_input=True)
         else:
             ck.violation("C19/translate_c_to_cirq/channels-misplaced", "channels are not 'after every occurrence of "
@@ -869,6 +872,114 @@ def run_frequency_stream(ck, n_cases):
                          "circuits = %.5f (6 sigma = %.5f)" % (got, want, 6 * math.sqrt(sigma2)), replay, found_input=True)
 
 
+def run_history_stream(ck, n_cases):
+    """NoiseModel objects are mutable and kept by reference: histories create / hand over / fill in every order."""
+    ck.stream("history", "histories over one NoiseModel object and one backend (sympy or cirq, n_shots None or 3000): "
+              "fill-then-construct, construct(empty)-then-fill, fill-construct-fill-more, empty only; then simulate a 1-2 "
+              "qubit circuit: the outcome must be a rejection (at construction or at simulation) or the state / outcome "
+              "distribution specified by the model's content (live content; for a model that was non-empty at "
+              "construction its content then is accepted too) - never another result, in particular not the noiseless "
+              "one for a non-trivial model; exact comparison without shots / for the returned density matrix, 6 sigma "
+              "for sampled frequencies; non-trivial = noisy and noiseless distributions differ by > 0.2 in total variation")
+    from tangelo.linq import get_backend
+    from tangelo.linq.noisy_simulation import NoiseModel
+    np.random.seed(ck.seed + 777)
+    shots_n = 3000
+    names_1q = ["X", "H", "RX", "Y", "RY"]
+    for i in range(n_cases):
+        be = ck.rng.choice(["sympy", "sympy", "cirq", "cirq", "cirq"])
+        shots = ck.rng.choice([None, shots_n])
+        order = ck.rng.choice(["fill-construct", "construct-fill", "construct-fill", "fill-construct-fill", "empty"])
+        n = 1 if be == "sympy" else ck.rng.choice([1, 2])
+        # circuit ending (mostly) in a computational basis state so that noise shows in the outcome distribution
+        gs = []
+        for _ in range(ck.rng.randint(1, 3)):
+            name = ck.rng.choice(names_1q + (["CNOT"] if n == 2 else []))
+            if name == "CNOT":
+                t = ck.rng.randrange(2)
+                gs.append({"name": "CNOT", "target": [t], "control": [1 - t], "k": None, "var": False})
+            else:
+                gs.append({"name": name, "target": [ck.rng.randrange(n)], "control": None,
+                           "k": ck.rng.choice([8, 8, 4, -8, 16]) if name in LC.PARAM else None, "var": False})
+        if not any(s["name"] in ("X", "Y") or (s["k"] in (8, -8)) for s in gs):
+            gs.insert(0, {"name": "X", "target": [0], "control": None, "k": None, "var": False})
+        n = 1 + max(max(s["target"] + (s["control"] or [])) for s in gs)
+        present = sorted({s["name"] for s in gs})
+
+        def strong_calls():
+            g = ck.rng.choice(present)
+            if ck.rng.random() < 0.5:
+                return [(g, "depol", ("f", ck.rng.choice([F(1), F(1, 2), F(3, 4)])))]
+            return [(g, "pauli", ("l", ck.rng.choice([[F(1, 2), F(0), F(0)], [F(1, 4), F(1, 4), F(0)], [F(0), F(1, 2), F(1, 4)]])))]
+        first = [] if order in ("construct-fill", "empty") else strong_calls()
+        later = [] if order in ("fill-construct", "empty") else strong_calls()
+        replay = {"kind": "history", "backend": be, "n_shots": shots, "order": order, "gates": gs,
+                  "first": jsonable_calls(first), "later": jsonable_calls(later)}
+        outcome = run_history_case(be, shots, gs, first, later)
+        live = errors_of_calls(first + later)
+        snap = errors_of_calls(first)
+        r_live = oracle_density(gs, live, n)
+        r_snap = oracle_density(gs, snap, n)
+        r_free = oracle_density(gs, {}, n)
+        tv = 0.5 * float(np.sum(np.abs(np.real(np.diag(r_live)) - np.real(np.diag(r_free)))))
+        ck.case("history", json.dumps(replay, default=str), nontrivial=tv > 0.2,
+                sample={"backend": be, "n_shots": shots, "order": order, "outcome": outcome[0] + ":" + str(outcome[1])[:80]},
+                tags=[be, "shots" if shots else "no-shots", order, "outcome:" + outcome[0] + (":" + outcome[1] if outcome[0] != "result" else "")])
+        if outcome[0] != "result":
+            continue                     # rejected at construction or at simulation
+        freqs, dm = outcome[1], outcome[2]
+        accept = [("live", r_live)] + ([("snapshot", r_snap)] if snap else [])
+        tol = 1e-8 if not shots else 6 * math.sqrt(0.25 / shots) + 1e-9
+        ok = False
+        for _, r in accept:
+            p = np.real(np.diag(r))
+            want = {"".join(str((x >> q) & 1) for q in range(n)): float(p[x]) for x in range(1 << n)}
+            dist = max(abs(freqs.get(k, 0.0) - want.get(k, 0.0)) for k in set(freqs) | set(want))
+            good = dist <= tol
+            if good and dm is not None and dm.shape == r.shape:
+                good = float(np.max(np.abs(dm - r))) <= 1e-8
+            ok = ok or good
+        if not ok:
+            silent = tv > 0.2 and max(abs(freqs.get(k, 0.0) - float(np.real(r_free[x, x]))) for x in range(1 << n)
+                                      for k in ["".join(str((x >> q) & 1) for q in range(n))]) <= tol
+            sig = "C19/%s/%s/%s" % (be, "noise-model-silently-ignored" if silent else "history-result-not-specified", order)
+            ck.violation(sig, "backend %s (n_shots=%s), history %s: no rejection, and the result %s is not the one specified "
+                         "by the noise model (expected outcome probabilities %s%s)" % (
+                             be, shots, order, {k: round(v, 4) for k, v in sorted(freqs.items())},
+                             [round(float(x), 4) for x in np.real(np.diag(r_live))],
+                             "; it is the NOISELESS result" if silent else ""), replay, found_input=True)
+
+
+def run_history_case(be, shots, gs, first, later):
+    """('rejected-at-construction'|'rejected-at-simulation', ExceptionName) or ('result', frequencies, density or None)"""
+    from tangelo.linq import get_backend
+    from tangelo.linq.noisy_simulation import NoiseModel
+    nm = NoiseModel()
+
+    def add(calls):
+        for g, nt, p in calls:
+            try:
+                nm.add_quantum_error(g, nt, py_params(p))
+            except ValueError:
+                pass            # a second channel of the same type on one gate is refused (errors_of_calls agrees)
+    add(first)
+    try:
+        b = get_backend(be, n_shots=shots, noise_model=nm)
+    except Exception as e:
+        return ("rejected-at-construction", type(e).__name__)
+    add(later)
+    c = make_circuit(gs)
+    try:
+        want_dm = be == "cirq" and bool(shots)
+        freqs, st = b.simulate(c, return_statevector=want_dm)
+    except Exception as e:
+        return ("rejected-at-simulation", type(e).__name__)
+    dm = None
+    if st is not None and np.asarray(st).ndim == 2:
+        dm = be_to_le(np.asarray(st), c.width)
+    return ("result", {k: float(v) for k, v in freqs.items()}, dm)
+
+
 def run_backend_stream(ck):
     ck.stream("backend", "get_backend(name, n_shots, noise_model) for cirq / sympy x n_shots in {None, 0, 1, 100} x noise "
               "model given or not: accepted / ValueError vs the model of Backend.__init__ with the regenerated "
@@ -969,10 +1080,12 @@ def run(ck):
         if bool(t["lookup_renamed"]) != renamed:
             ck.violation("C19/translator/lookup-rule", "tables (%s) say lookup_renamed=%s but the witness behaves as %s" % (
                 tables, t["lookup_renamed"], renamed), {"kind": "translator"}, found_input=False)
+    WITNESS["renamed"] = bool(fails) if fails is not None else True
     # every stream runs whatever happened before (translator / proof / model evaluation failures are reported and
     # the implementation-only oracles inside each stream still run)
     q = ck.tier == "quick"
     guard(ck, "backend", run_backend_stream)
+    guard(ck, "history", run_history_stream, 60 if q else 600)
     guard(ck, "validation", run_validation_stream, 150 if q else 2500)
     guard(ck, "placement", run_placement_stream, 160 if q else 2500, renamed)
     guard(ck, "density", run_density_stream, 150 if q else 900, renamed)
@@ -1027,5 +1140,23 @@ def replay(data):
             print("simulate raised", res[1])
             bad = 1
         return bad
+    if kind == "history":
+        first, later = calls_from_json(r["first"]), calls_from_json(r["later"])
+        gs = r["gates"]
+        n = 1 + max(max(s["target"] + (s["control"] or [])) for s in gs)
+        np.random.seed(777)
+        out = run_history_case(r["backend"], r["n_shots"], gs, first, later)
+        print("outcome:", out[0], out[1])
+        if out[0] != "result":
+            return 0
+        tol = 1e-8 if not r["n_shots"] else 6 * math.sqrt(0.25 / r["n_shots"]) + 1e-9
+        cands = [errors_of_calls(first + later)] + ([errors_of_calls(first)] if first else [])
+        for errs in cands:
+            p = np.real(np.diag(oracle_density(gs, errs, n)))
+            want = {"".join(str((x >> q) & 1) for q in range(n)): float(p[x]) for x in range(1 << n)}
+            print("specified:", want)
+            if max(abs(out[1].get(k, 0.0) - want.get(k, 0.0)) for k in set(out[1]) | set(want)) <= tol:
+                return 0
+        return 1
     print(json.dumps(r, indent=1, default=str)[:4000])
     return 1
